@@ -23,7 +23,69 @@ let key_of = function
 
 let toks line = List.filter (fun x -> x <> "") (String.split_on_char ' ' line)
 
+(* ---- inlineTagFilter on the model: `--inl in out`.  Input = the dump of harness/c02/zz_verif_c02q_test.go;
+   conditions are strings, a tag condition is T<US>name<US>accept<US>subquery.  Output: one line per block with
+   the canonical form (sorted conjuncts of sorted conditions) of the model's result. *)
+let split_on (sep : char) (s : string) = String.split_on_char sep s
+
+let inl_mode (inf : string) (outf : string) =
+  let ic = open_in inf in
+  let oc = open_out outf in
+  let lines = ref [] in
+  (try while true do lines := input_line ic :: !lines done with End_of_file -> ());
+  let lines = Array.of_list (List.rev !lines) in
+  let pos = ref 0 in
+  let next () = let l = lines.(!pos) in incr pos; split_on '\t' l in
+  let parse_cond (s : string) =
+    match split_on '\x1f' s with
+    | "T" :: name :: acc :: _ ->
+        let a = int_of_string acc in
+        CTag (name, { acc_m = a land 1 <> 0; acc_f = a land 2 <> 0; acc_um = a land 4 <> 0; acc_uf = a land 8 <> 0 })
+    | _ -> CAtom s in
+  let parse_conj (s : string) = if s = "" then [] else List.map parse_cond (split_on '\x1d' s) in
+  let show_cond = function
+    | CAtom s -> s
+    | CTag (name, a) ->
+        let n = (if a.acc_m then 1 else 0) + (if a.acc_f then 2 else 0) + (if a.acc_um then 4 else 0) + (if a.acc_uf then 8 else 0) in
+        Printf.sprintf "T\x1f%s\x1f%d" name n in
+  while !pos < Array.length lines do
+    match next () with
+    | [ "INL"; ci; ji ] ->
+        let k = match next () with [ "ntags"; k ] -> int_of_string k | _ -> failwith "ntags" in
+        let table = List.init k (fun _ ->
+            match next () with
+            | [ "tag"; name; unc; nd; ni ] ->
+                let rd tag n = List.init (int_of_string n) (fun _ ->
+                    match next () with [ t; c ] when t = tag -> parse_conj c | [ t ] when t = tag -> [] | _ -> failwith "def line") in
+                let d = rd "d" nd in
+                let i = rd "i" ni in
+                (name, (unc = "1", d, i))
+            | _ -> failwith "tag line") in
+        let conj = match next () with [ "in"; c ] -> parse_conj c | [ "in" ] -> [] | _ -> failwith "in line" in
+        let nout = match next () with [ "out"; n ] -> int_of_string n | _ -> failwith "out line" in
+        pos := !pos + nout;
+        let tags name =
+          match List.assoc_opt name table with
+          | Some (unc, d, _) -> Some { td_matches = (fun _ -> false); td_uncertain = (fun _ -> unc); td_any_uncertain = unc; td_conditions = d }
+          | None -> None in
+        let invert d =
+          match List.find_opt (fun (_, (_, d', _)) -> d' = d) table with
+          | Some (_, (_, _, i)) -> i
+          | None -> failwith "invert of an unknown definition" in
+        let res = inline_conj_with tags invert (fun d -> Some d) conj [ [] ] in
+        let canon = match res with
+          | None -> "NONE"
+          | Some out ->
+              String.concat "\x1c"
+                (List.sort compare (List.map (fun c -> String.concat "\x1d" (List.sort compare (List.map show_cond c))) out)) in
+        output_string oc (Printf.sprintf "I\t%s\t%s\t%s\n" ci ji canon)
+    | _ -> ()
+  done;
+  close_out oc;
+  exit 0
+
 let () =
+  if Array.length Sys.argv > 3 && Sys.argv.(1) = "--inl" then inl_mode Sys.argv.(2) Sys.argv.(3);
   let ic = open_in Sys.argv.(1) in
   let oc = open_out Sys.argv.(2) in
   let lines = ref [] in
